@@ -72,6 +72,7 @@ def apply_directives(body, directives, unit):
                     rules.append(r[1:])
     if "cfg" in rules:
         body.rule_cfg_features(features_off=unit["features_off"], features_on=unit["features_on"])
+        body.rule_cfg_fields(features_off=unit["features_off"], features_on=unit["features_on"])
         body.rule_cfg_macro(features_on=unit["features_on"], features_off=unit["features_off"])
     if "log" in rules:
         body.rule_logging()
@@ -89,8 +90,9 @@ def apply_directives(body, directives, unit):
     toks = body.toks
     loops = None
     closures = None
-    for (key, val) in unit["subs"] :
-        body.sub(key, val, count="?")
+    if "usub" in rules or "-usub" not in [r.strip() for (k_, v_) in directives if k_ == "rules" for r in v_.split(",")]:
+        for (key, val) in unit["subs"]:
+            body.sub(key, val, count="?")
     for (key, val) in directives:
         if key == "rules" or key == "params":
             continue
@@ -166,6 +168,8 @@ def apply_directives(body, directives, unit):
                 expr = body.src[toks[j + 1].start:toks[lo - 1].end]
                 pat = body.src[toks[kw + 1].start:toks[j - 1].end]
                 if what == "via":
+                    if expr.strip().endswith(".iter()"):
+                        expr = "&" + expr.strip()[:-len(".iter()")]
                     new = f"let __v{k} = {val.strip()}({expr}); for {pat} in __it{k}: __v{k}.iter() "
                 elif what == "viaval":
                     # by-value iteration (ranges): `for P in A..=B {` -> `let __vK = F(A, B); for __rK in __itK: __vK.iter() { let P = *__rK;`
@@ -293,7 +297,7 @@ def splice(template_path, repo_root, canary=False):
             src_path = os.path.join(repo_root, kv["src"])
             if not os.path.exists(src_path):
                 raise LostAnchor(f"source file {kv['src']} missing")
-            body = Body(Source.get(src_path), kv["fn"])
+            body = Body(Source.get(src_path), kv["fn"], closure=kv.get("closure"))
             # parameter names must agree with the template header
             htoks = lex(header_text[header_text.index(m.group(0)):])
             from lex import param_names
@@ -308,10 +312,10 @@ def splice(template_path, repo_root, canary=False):
                 raise LostAnchor(f"{kv['fn']}: real parameters {body.params} differ from the contract's {expected}")
             apply_directives(body, directives, unit)
             text, linemap = body.render()
-            info = FnInfo(kv.get("name", kv["fn"].split(" for ")[-1]), [p for p in kv.get("props", "").split(",") if p], kv.get("known"), "body")
+            info = FnInfo(kv.get("name", kv["fn"].split(" for ")[-1] + ("::" + kv["closure"] if kv.get("closure") else "")), [p for p in kv.get("props", "").split(",") if p], kv.get("known"), "body")
             info.simple = tname
             info.src = kv["src"]
-            info.qual = kv["fn"]
+            info.qual = kv["fn"] + ("::" + kv["closure"] if kv.get("closure") else "")
             info.header_start = h + 1
             info.start = h + 1
             info.report = body.report
